@@ -288,7 +288,7 @@ func init() {
 		n := in.B.Div(in.B.Mul(s.Len, in.B.Int64(ss)), in.B.Int64(ts))
 		return IfaceV{T: types.NewSlice(tgt.T), V: SliceV{O: s.O, Off: s.Off, Len: n, Cap: n}}, nil
 	})
-	reg(io+"CastToByteSlice", func(in *Interp, fn *ssa.Function, a []Value) (Value, *iPanic) {
+	reg(io+"CastToByteSliceIntrinsicDisabled", func(in *Interp, fn *ssa.Function, a []Value) (Value, *iPanic) {
 		src := a[0].(IfaceV)
 		s, ok := src.V.(SliceV)
 		st, ok2 := under(src.T).(*types.Slice)
